@@ -240,7 +240,7 @@ def model_check(module, cfg, workers=8, xmx="6g", timeout=3600, env=None, covera
 # --------------------------------------------------------------------------
 # drivers
 
-def run_driver(binary, driver, args, outdir, timeout=3600):
+def run_driver(binary, driver, args, outdir, timeout=1200):
     os.makedirs(outdir, exist_ok=True)
     cmd = [binary, driver, "--out", outdir]
     for k, v in args.items():
